@@ -507,8 +507,8 @@ def c17(pid, tier, replay):
                 if last and last not in done:
                     inprog.add(last)
                 outs.append(f)
-            msg = [l for l in c.out.splitlines() if l.startswith("panic:") or l.startswith("fatal error:")][:1]
-            print("NOTE the code under test crashed the harness process: %s" % (msg or ["crash"])[0][:200])
+            msg = [l for l in c.out.splitlines() if l.startswith("panic:") or l.startswith("fatal error:") or l.startswith("VF-HANG")][:1]
+            print("NOTE the code under test crashed or blocked the harness process: %s" % (msg or ["crash"])[0][:200])
             if not inprog:
                 break
             crashed += sorted(inprog)
